@@ -119,6 +119,14 @@ def install(E):
         if f is None:
             f = E.uf["RND"] = z3.Function("RND", RealS, IntS)
         r = f(x.t)
+        if getattr(E, "quant_depth", 0):
+            # under a binder: the within-1/2 fact as ONE quantified axiom with trigger RND(x) (so that it reaches the
+            # skolemised instances of a contract quantifier); no pairwise instances at a bound variable
+            if not P.ghost.get("rnd_axiom"):
+                P.ghost["rnd_axiom"] = True
+                xv = z3.Const("x!rnd", RealS)
+                P.assume(z3.ForAll([xv], z3.And(2 * (z3.ToReal(f(xv)) - xv) <= 1, 2 * (z3.ToReal(f(xv)) - xv) >= -1), patterns=[f(xv)]))
+            return [(P, Num(r, True))]
         P.assume(z3.And(2 * (z3.ToReal(r) - x.t) <= 1, 2 * (z3.ToReal(r) - x.t) >= -1))
         seen = P.ghost.get("rnd_terms", ())
         for y in seen[-6:]:
